@@ -1582,9 +1582,11 @@ def cache_scenarios(ctx):
             ops.append({'op': 'outage', 'on': True})
         return ops
     tf = (False, True)
-    for blocks in (1, 3, 25):
+    # (confirmation targets on both sides of the two group boundaries 1|2 and 5|6, in every order: what was stored for
+    # one group is no answer for a target of another group)
+    for blocks in (1, 2, 3, 5, 6, 25):
         for dt in (599, 600, 601):
-            for second in (blocks, {1: 2, 3: 5, 25: 6}[blocks], {1: 3, 3: 25, 25: 1}[blocks]):
+            for second in ((1, 2, 5, 6, 25) if dt == 599 else (blocks, {1: 2, 2: 1, 3: 5, 5: 6, 6: 5, 25: 5}[blocks])):
                 for outage in tf:
                     for reopen in tf:
                         out.append((['estimatefee'], [q('estimatefee', blocks=blocks)] + mid(dt, outage, reopen) +
